@@ -117,8 +117,8 @@ func NewDeviceMemoryProperties(
 		return nil, errors.New("memory.CreateOptions.HeapSizeLimits was provided, but the length does not equal the number of PhysicalDevice heap types")
 	}
 
-	if heapTypeCount > 0 && heapTypeCount != heapCount {
-		return nil, errors.New("memory.CreateOptions.ExternalMemoryHandleTypes was provided, but the length does not equal the number of PhysicalDevice heap types")
+	if heapTypeCount > 0 && heapTypeCount != deviceProperties.MemoryTypeCount() {
+		return nil, errors.New("memory.CreateOptions.ExternalMemoryHandleTypes was provided, but the length does not equal the number of PhysicalDevice memory types")
 	}
 
 	deviceProperties.heapLimits = heapSizeLimits
